@@ -236,6 +236,8 @@ def _want_kinds(case):
 def _check_nothing_ran(case):
     doc = case['doc']
     summary, trace, ex = run(doc)
+    if trace:
+        raise Violation('nothing_ran_but_trace', 'statements {} ran although all are skipped\n{}'.format(trace, doc))
     if summary['passed'] or summary['failed'] or not summary['skipped']:
         raise Violation('nothing_ran_not_skipped',
                         'a doctest in which nothing ran is reported {} instead of skipped\n{}'.format(
@@ -371,6 +373,13 @@ NOTHING_RAN = [
     '>>> \n>>> # c\n',
     'text\n\n    >>> # indented comment only\n',
     '>>> # comment\n\n>>> # another group\n',
+    # every statement skipped by a directive, with and without plain comments beside the skipped code
+    '>>> # xdoctest: +SKIP\n>>> T.append(1)\n>>> print(1)\nwrong\n',
+    '>>> # a remark\n>>> # xdoctest: +SKIP\n>>> T.append(1)\n',
+    '>>> T.append(1)  # xdoctest: +SKIP\n>>> # a remark in between\n>>> T.append(2)  # xdoctest: +SKIP\n',
+    '>>> T.append(1)  # xdoctest: +SKIP\nwrong\n>>> # xdoctest: -SKIP\n>>> # trailing remark\n',
+    '>>> # xdoctest: +REQUIRES(env:VP_NEVER_SET_VARIABLE==1)\n>>> T.append(1)\n\n>>> # a remark in a second group\n',
+    '>>> # remark\n>>> T.append(1)  # xdoctest: +REQUIRES(module:vp_no_such_module)\n',
 ]
 
 
